@@ -59,7 +59,8 @@ FAMILIES = [
 ]
 
 BINOPS = {"add": "+", "sub": "-", "mul": "*", "div": "/"}
-FUN1 = {"ln": "ln", "exp": "exp", "sqrt": "sqrt", "tan": "tan"}
+FUN1 = {"ln": "ln", "exp": "exp", "sqrt": "sqrt", "tan": "tan", "abs": "Abs", "ln_1p": "log1p_", "sin": "sin", "cos": "cos", "atan": "atan"}
+CONST0 = {"epsilon": "eps_", "min_positive_value": "minpos_", "max_value": "maxval_"}
 
 
 class NoForm(Exception):
@@ -99,6 +100,10 @@ def to_sym(t, fields, rename):
             return "(1/(%s))" % to_sym(args[0], fields, rename)
         if name == "PI" and not args:
             return "pi"
+        if name == "cbrt" and len(args) == 1:
+            return "((%s)**Rational(1,3))" % to_sym(args[0], fields, rename)
+        if name in CONST0 and not args:
+            return CONST0[name]
         if name == "one" and not args:
             return "1"
         if name == "zero" and not args:
@@ -236,9 +241,17 @@ def run(chk, F, tier):
                 continue
             for pi_, path in enumerate(paths):
                 jid = "%s|path%d" % (key, pi_)
+                draw_guard = False
                 try:
                     term = to_sym(ret_term_on_path(T, s, path), fields, rename)
-                    conds = [(op, to_sym(a, fields, rename), to_sym(b2, fields, rename), tk) for op, a, b2, tk in float_conditions(T, s, path)]
+                    conds = []
+                    for op, a, b2, tk in float_conditions(T, s, path):
+                        try:
+                            conds.append((op, to_sym(a, fields, rename), to_sym(b2, fields, rename), tk))
+                        except NoForm:
+                            if "pieces" in fam:
+                                raise
+                            draw_guard = True       # a condition the term language cannot express: the path is only confirmed, never refuted
                 except (NoForm, TypeError) as e:
                     chk.unproved_note("quantile", jid, "returned value outside the term language: %s" % e)
                     continue
@@ -246,7 +259,9 @@ def run(chk, F, tier):
                 # to the algebra as an equation; any other parameter condition makes the path "guarded" (never refuted, only confirmed)
                 pconds = [c_ for c_ in conds if "u" not in _names(c_[1]) and "u" not in _names(c_[2])]
                 conds = [c_ for c_ in conds if c_ not in pconds]
-                assume, guarded = [], False
+                # a branch on the value of the draw itself (outside Triangular): the path covers part of (0,1) only, so a mismatch at
+                # an arbitrary test point refutes nothing
+                assume, guarded = [], draw_guard or (bool(conds) and "pieces" not in fam)
                 for op, a, b2, tk in pconds:
                     if (op == "eq" and tk) or (op == "ne" and not tk):
                         assume.append([a, b2])
